@@ -45,7 +45,11 @@ def rule_h1(chk: Check, I):
         # a builder that loops (help chains) also yields the chained form; the single-step form must be among them and every
         # form must start the same way
         head = want.split(", args=")[0]
-        ok = want in got and all(g.startswith(head) for g in got)
+        # (when the two forms share one constructor call — `target = atom` / `target = Attribute(...)` joined before the call —
+        # the single-step argument is the first member of the argument's union)
+        first_arg = want.split(", args=[", 1)[1].split("*]", 1)[0] if ", args=[" in want else None
+        ok = (want in got or (first_arg is not None and any(g.startswith(f"{head}, args=[{first_arg} | ") for g in got))) \
+            and all(g.startswith(head) for g in got)
         chk.require(ok, "H1-translation-shape", name, f"{repo.SUBHEADER} ({qual})",
                     f"`{name}` must desugar to {want}; the builder produces {sorted(got)[:2]}")
     # path literal: p"..." -> __xonsh__.path_literal(<the string>)
